@@ -264,6 +264,41 @@ class Walk:
         sites = self.facts.callers(body.nid)
         if body.rec.get('trait_item'):
             sites = sites + self.facts.callers(body.rec['trait_item'])
+        if not sites and '::{closure#' in body.nid:
+            # a closure handed to an iterator adaptor (`parts.iter().fold(base, |mut res, part| { res.push(part); res })`):
+            # its last parameter takes the elements of the receiver
+            params = [d['name'] for d in sorted((d for d in body.rec.get('debug', []) if d.get('arg')), key=lambda d: d['arg'])]
+            parent = self.facts.find(body.nid.rsplit('::{closure#', 1)[0])
+            done = False
+            if params and params[-1] == pname and len(parent) == 1:
+                pb = parent[0]
+                for s in pb.calls('re:Iterator(>)?::(fold|for_each|try_for_each|map|filter|any|all)$'):
+                    holds = False
+                    for a in s.term['args'][1:]:
+                        o = pb.origin_of_operand(a)
+                        while o is not None and o.kind in ('ref', 'cast'):
+                            o = o.base
+                        if o is not None and o.kind == 'agg' and o.rv.get('kind') == 'closure' and norm(o.rv.get('def') or '') == body.nid:
+                            holds = True
+                    if not holds:
+                        continue
+                    r = pb.origin_of_operand(s.term['args'][0])
+                    for _ in range(8):
+                        while r is not None and r.kind in ('ref', 'cast'):
+                            r = r.base
+                        if r is not None and r.kind == 'call' and r.args and re.search(r'::(iter|into_iter|copied|cloned|rev|as_slice|as_ref|deref)$', norm(r.callee)):
+                            r = r.args[0]
+                            continue
+                        break
+                    if r is not None and r.kind == 'agg':
+                        w = Walk(self.facts, self.depth + 1)
+                        w.walk(pb, r)
+                        for p_ in w.problems:
+                            self.problems.append('%s (element of the sequence `%s` iterates over at %s)' % (p_, pname, s.loc()))
+                        self.kinds.append('elements[' + ','.join(w.kinds) + ']')
+                        done = True
+            if done:
+                return
         if not sites:
             self.problems.append('parameter `%s` of %s: no caller found' % (pname, body.nid))
             return
@@ -355,7 +390,11 @@ def rule_rsync_complete(ctx):
                 continue
             w = Walk(ctx.facts)
             w.walk(b, b.origin_of_operand(s.term['args'][1]))
-            kinds += [k for k in w.kinds if k.startswith('rsync-') or k == 'module-path']
+            flat = []
+            for k in w.kinds:
+                m_ = re.match(r'^elements\[(.*)\]$', k)
+                flat += m_.group(1).split(',') if m_ else [k]
+            kinds += [k for k in flat if k.startswith('rsync-') or k == 'module-path']
         if not kinds:
             continue
         if set(kinds) == {'module-path'} or set(kinds) == {'rsync-canonical-module'}:
